@@ -201,6 +201,22 @@ func streamGrid() []*layout {
 			out = append(out, l)
 		}
 	}
+	// long scalar lists given to every document by one layer, then extended per document
+	// by the next (slices shared between documents have spare capacity only for some lengths)
+	for _, n := range []int{3, 16, 17, 20, 33, 34, 40, 64, 65, 100} {
+		ports := make([]any, n)
+		for i := range ports {
+			ports[i] = i + 1
+		}
+		l := &layout{Fs: map[string]fsx.Entry{}, Root: "/", Inputs: []string{"a.b.c.json"}}
+		l.Fs["/w/a.yaml"] = fsx.Entry{Kind: "file", Docs: toTagged([]any{map[string]any{"id": 0}, map[string]any{"id": 1}, map[string]any{"id": 2}})}
+		l.Fs["/w/a.b.yaml"] = fsx.Entry{Kind: "file", Docs: toTagged([]any{map[string]any{"ports": ports, "names": []any{"x", "y"}}})}
+		l.Fs["/w/a.b.c.json"] = fsx.Entry{Kind: "file", Docs: toTagged([]any{
+			map[string]any{"$match": map[string]any{"id": 0}, "ports": []any{1001}, "names": []any{"zero"}},
+			map[string]any{"$match": map[string]any{"id": 1}, "ports": []any{2002, 2003}},
+		})}
+		out = append(out, l)
+	}
 	return out
 }
 
@@ -212,8 +228,14 @@ func C02(r *Run) {
 	n := r.Pick(2000, 40000)
 	sessions := make([]Sess, n)
 	distinct := map[string]bool{}
+	gb := gen.New(r.Seed*104729 + 100002).Big()
+	gb.ReqP = 0.01
 	for i := range sessions {
-		sessions[i] = streamSession(g, i)
+		if i%12 == 11 {
+			sessions[i] = streamSession(gb, i)
+		} else {
+			sessions[i] = streamSession(g, i)
+		}
 		distinct[string(J(sessions[i].Meta))] = true
 	}
 	r.Logf("generated %d sessions", n)
